@@ -31,10 +31,11 @@ type groupCase struct {
 	keys      []string
 	groupNull bool
 	filled    bool
+	optForm   int // how the options are spelled: order of Columns/Null, explicit Null(false), explicit empty Columns()
 }
 
 func (g groupCase) String() string {
-	return fmt.Sprintf("%skeys %q groupNull=%v\n", g.d.String(), g.keys, g.groupNull)
+	return fmt.Sprintf("%skeys %q groupNull=%v optForm=%d\n", g.d.String(), g.keys, g.groupNull, g.optForm)
 }
 
 func genGroupCase(t *rapid.T, withID bool) groupCase {
@@ -81,7 +82,8 @@ func genGroupCase(t *rapid.T, withID bool) groupCase {
 		nk = len(cands)
 	}
 	perm := rapid.Permutation(cands).Draw(t, "keyperm")
-	return groupCase{d: d, in: in, keys: append([]string(nil), perm[:nk]...), groupNull: rapid.Bool().Draw(t, "groupnull"), filled: filled}
+	return groupCase{d: d, in: in, keys: append([]string(nil), perm[:nk]...), groupNull: rapid.Bool().Draw(t, "groupnull"), filled: filled,
+		optForm: rapid.IntRange(0, 3).Draw(t, "optform")}
 }
 
 func withIDLast(tab hx.Table) hx.Table {
@@ -89,15 +91,20 @@ func withIDLast(tab hx.Table) hx.Table {
 }
 
 func (g groupCase) confFns() []groupby.ConfigFunc {
-	fns := []groupby.ConfigFunc{}
-	if len(g.keys) > 0 {
-		fns = append(fns, groupby.Columns(g.keys...))
+	var cols, null []groupby.ConfigFunc
+	// no keys: no Columns option, or an explicitly empty one
+	if len(g.keys) > 0 || g.optForm >= 2 {
+		cols = append(cols, groupby.Columns(g.keys...))
 	}
 	// Null(false) is the default: pass it explicitly only sometimes
-	if g.groupNull {
-		fns = append(fns, groupby.Null(true))
+	if g.groupNull || g.optForm >= 2 {
+		null = append(null, groupby.Null(g.groupNull))
 	}
-	return fns
+	// the options are independent: any order
+	if g.optForm%2 == 1 {
+		return append(null, cols...)
+	}
+	return append(cols, null...)
 }
 
 func canonKeyCell(c hx.Col, r int) string {
